@@ -1455,3 +1455,54 @@ Proof.
 Qed.
 
 End Decode.
+
+(* ================================================================== the statements of Props/C11.v *)
+Section Statements.
+Variable deflate : bytes -> bytes.
+Variable inflate : bytes -> option bytes.
+
+Theorem meta_emit : forall k n faults ops, compressing k = true ->
+  let tr := run_trace deflate (new_coll k n, mkWriter [] faults false) ops in
+  trace_ok k None tr /\
+  trace_okb k None tr = true /\
+  (multi_chunk k = false -> slot_after k None tr = last_set None ops).
+Proof.
+  intros k n faults ops Hk tr. pose proof (meta_emit_shape deflate k n faults ops Hk) as H.
+  split; [exact H|]. split; [apply trace_okb_true; exact H|].
+  intros Hm. apply slot_after_single. exact Hm.
+Qed.
+
+Theorem meta_indep : forall k n faults ops, compressing k = true ->
+  let r1 := run deflate (new_coll k n, mkWriter [] faults false) ops in
+  let r2 := run deflate (new_coll k n, mkWriter [] faults false) (ops_erase ops) in
+  resolve_outs (snd r2) = map out_erase (resolve_outs (snd r1)) /\
+  w_log (snd (fst r2)) = map wrec_erase (w_log (snd (fst r1))) /\
+  snd r2 = obss_erase (snd r1) /\
+  (forall cap ds, same_samples (decode_ftdc inflate cap (drop_meta ds)) (decode_ftdc inflate cap ds)).
+Proof.
+  intros k n faults ops Hk r1 r2.
+  destruct (meta_emit_erase deflate k n faults ops Hk) as (_ & Hw & Hb & Hr).
+  split; [exact Hr|]. split; [exact Hw|]. split; [exact Hb|].
+  intros cap ds. apply decode_drop_meta.
+Qed.
+
+End Statements.
+
+(* non-vacuity: a batch collector of chunk size 1 with two samples, metadata set,
+   replaced after data, resolved: one metadata document (the replacement) ahead of
+   the first chunk only, and both chunks report it when read back *)
+Definition ex_m1 : doc := [([104]%N, VInt32 1)].
+Definition ex_m2 : doc := [([104]%N, VInt32 2)].
+Definition ex_d (x : Z) : doc := [([120]%N, VInt64 x)].
+Definition ex_ops : list op :=
+  [OSetMeta (Some ex_m1); OAdd (ex_d 5) 0; OAdd (ex_d 7) 0; OSetMeta (Some ex_m2); OResolve].
+
+Theorem meta_example :
+  exists d1 d2,
+    resolve_outs (snd (run deflate_flag (new_coll KBatch 1, mkWriter [] [] false) ex_ops))
+      = [OFtdc [meta_doc 0 ex_m2; chunk_doc 0 d1; chunk_doc 0 d2]] /\
+    map ck_meta (fst (read_chunks inflate_flag None [meta_doc 0 ex_m2; chunk_doc 0 d1; chunk_doc 0 d2]))
+      = [Some (meta_doc 0 ex_m2); Some (meta_doc 0 ex_m2)] /\
+    spec_metas None [meta_doc 0 ex_m2; chunk_doc 0 d1; chunk_doc 0 d2]
+      = [Some (meta_doc 0 ex_m2); Some (meta_doc 0 ex_m2)].
+Proof. eexists. eexists. split; [vm_compute; reflexivity|]. split; vm_compute; reflexivity. Qed.
